@@ -25,6 +25,10 @@ BytesOf(w) == WBytes(w[1]) \o WBytes(w[2]) \o WBytes(w[3]) \o WBytes(w[4]) \o WB
 ForTT2(v, q, x) == [Base(q) EXCEPT ![1] = WSub(x, TT2C(v))]
 ForTT1(v, q, x) == [Base(q) EXCEPT ![5] = WXor(Base(q)[1], WSub(x, TT1C(v)))]
 ForP1(v, q, x) == [Base(q) EXCEPT ![1] = WXor3(x, Base(q)[8], WRotl(Base(q)[14], 15))]
+\* both boolean functions zero at the start of round 1: W_0 from TT2 = P0^-1(E xor (F <<< 19)), then W_4 from TT1 = A xor (B <<< 9)
+ForBothZero(v, q) == [[Base(q) EXCEPT ![1] = WSub(P0Inv(WXor(v[5], WRotl(v[6], 19))), TT2C(v))]
+                         EXCEPT ![5] = WXor(WSub(P0Inv(WXor(v[5], WRotl(v[6], 19))), TT2C(v)), WSub(WXor(v[1], WRotl(v[2], 9)), TT1C(v)))]
+ASSUME \A q \in 1..3 : Round1BothZero(IV, ForBothZero(IV, q)) /\ Round1BothZero(V1, ForBothZero(V1, q))
 Sol(which, v, q, x) == IF which = 1 THEN ForTT2(v, q, x) ELSE IF which = 2 THEN ForTT1(v, q, x) ELSE ForP1(v, q, x)
 Msg(kind, which, q) == IF kind = 1 THEN BytesOf(Sol(which, IV, q, Values[q])) ELSE Block1 \o BytesOf(Sol(which, V1, q, Values[q]))
 \* self-check: every emitted message is of the class the trace specification will assign
@@ -34,6 +38,8 @@ Init == pq = 0 /\ pdone = FALSE
 Next == ~pdone /\ pq' = pq + 1 /\ pdone' = (pq + 1 >= Len(Values))
 \* quick (Stride > 1): every special value for the first-block forms, a stride of them for the second-block forms
 Picked(q, kind) == Stride = 1 \/ kind = 1 \/ q % Stride = 1 \/ q <= 2
+EmitZ == pq \in 1..3 => PrintT(<<"PLAN", ToJson([kind |-> 1, which |-> 4, msg |-> BytesOf(ForBothZero(IV, pq))])>>)
+                        /\ PrintT(<<"PLAN", ToJson([kind |-> 2, which |-> 4, msg |-> Block1 \o BytesOf(ForBothZero(V1, pq))])>>)
 Emit == pq >= 1 => \A which \in 1..3 : \A kind \in 1..2 : Picked(pq, kind) =>
             PrintT(<<"PLAN", ToJson([kind |-> kind, which |-> which, msg |-> Msg(kind, which, pq)])>>)
 =============================================================================
